@@ -51,6 +51,7 @@ def run(tier):
                 continue
             c["documents"] += 1
             dout = json.loads(res["files"][outname])
+            full[(r["name"], flag)] = dout
             if flag == "on":
                 full[r["name"]] = dout
             # the per-block accounting the tool writes (blocks.csv): instructions as it read/emitted them, priced under the same flag
@@ -127,21 +128,25 @@ def run(tier):
         on = nm.split(".")[0] + "_optimized.json_solc"
         if r["status"] == "ok" and r["res"] and on in r["res"]["files"]:
             full[nm] = json.loads(r["res"]["files"][on])
+    # both restrictions together: the selection must give the selected contract's assembly of the full run made under the same PUSH0 setting
     for name, d in dl[4:8] + rel:
-        for cname in [k for k, v in d["contracts"].items() if v.get("asm")][:3]:
+        for k_, cname in enumerate([k for k, v in d["contracts"].items() if v.get("asm")][:3]):
             short = cname.split("/")[-1].split(":")[-1]
-            r = docrun.run_docs([(name, d)], ["-greedy", "-c", short])[0]
-            res = r["res"]
-            outname = name.split(".")[0] + "_optimized.json_solc"
-            c["contract-selections"] += 1
-            if r["status"] != "ok" or not res or res.get("rc") != 0 or outname not in res["files"]:
-                violations.append({"kind": "no-output-file", "input": name, "options": ["-c", short], "what": "-c %s on %s: rc %s %s" % (short, name, (res or {}).get("rc"), ((res or {}).get("stderr_tail") or "")[-200:])})
-                continue
-            single = json.loads(res["files"][outname])
-            want = full.get(name, {}).get("contracts", {}).get(cname, {}).get("asm")
-            if single != want:
-                violations.append({"kind": "contract-selection-changes-result", "input": name, "options": ["-c", short],
-                                   "what": "the output of -c %s on %s is not the selected contract's optimized assembly of the full run" % (short, name)})
+            for flag, extra in (("on", []), ("off", ["-push0"])):
+                if flag == "off" and ((name, "off") not in full or k_ > 0):
+                    continue
+                r = docrun.run_docs([(name, d)], ["-greedy", "-c", short] + extra)[0]
+                res = r["res"]
+                outname = name.split(".")[0] + "_optimized.json_solc"
+                c["contract-selections"] += 1
+                if r["status"] != "ok" or not res or res.get("rc") != 0 or outname not in res["files"]:
+                    violations.append({"kind": "no-output-file", "input": name, "options": ["-c", short] + extra, "what": "-c %s on %s: rc %s %s" % (short, name, (res or {}).get("rc"), ((res or {}).get("stderr_tail") or "")[-200:])})
+                    continue
+                single = json.loads(res["files"][outname])
+                want = (full.get((name, "off")) if flag == "off" else full.get(name, {})).get("contracts", {}).get(cname, {}).get("asm")
+                if single != want:
+                    violations.append({"kind": "contract-selection-changes-result", "input": name, "options": ["-c", short] + extra,
+                                       "what": "the output of -c %s %s on %s is not the selected contract's optimized assembly of the full run under the same PUSH0 setting" % (short, " ".join(extra), name)})
     cov = {"evaluations": c["blocks"] + c["plain-blocks"] + c["contract-selections"], "distinct_nontrivial": c["blocks"] + c["plain-blocks"],
            "obligations": po["obligations"], "discharged": po["discharged"],
            "rule": "documents and plain blocks run with PUSH0 disabled and enabled: PUSH0 items may not appear when disabled; the tool's gas/bytes/"
